@@ -566,6 +566,11 @@ pub fn check_order(evs: &[Ev], tag: &str, obs: &mut Obs, bits: u64) -> Result<()
 }
 
 pub fn check_order_mode<F: geo_booleanop::boolean::Float>(evs: &[Rc<SweepEvent<F>>], tag: &str, obs: &mut Obs, bits: u64, float_mode: bool) -> Result<(), Failure> {
+    check_order_ex(evs, tag, obs, bits, float_mode, true)
+}
+
+/// `segments == false`: the event order only
+pub fn check_order_ex<F: geo_booleanop::boolean::Float>(evs: &[Rc<SweepEvent<F>>], tag: &str, obs: &mut Obs, bits: u64, float_mode: bool, segments: bool) -> Result<(), Failure> {
     let n = evs.len();
     let fail = |clause: &str, why: String| Failure::new(clause, format!("{} events: {}", tag, why));
     let show = |e: &Rc<SweepEvent<F>>| {
@@ -641,6 +646,9 @@ pub fn check_order_mode<F: geo_booleanop::boolean::Float>(evs: &[Rc<SweepEvent<F
     }
     if same_point || collinear {
         obs.nontrivial = true;
+    }
+    if !segments {
+        return Ok(());
     }
     // segment order on left events with overlapping x-extent
     let lefts: Vec<&Rc<SweepEvent<F>>> = evs.iter().filter(|e| e.is_left() && e.get_other_event().is_some()).take(48).collect();
@@ -795,7 +803,35 @@ pub fn check_segpair_order(d: &crate::props::segpair::SegPair, obs: &mut Obs) ->
     if strictly_inside(s1, s2.0) || strictly_inside(s1, s2.1) || strictly_inside(s2, s1.0) || strictly_inside(s2, s1.1) {
         obs.class("T-contact-pair");
     }
-    check_order_mode(&evs, "segment pair", obs, 1, !d.integer)
+    check_order_mode(&evs, "segment pair", obs, 1, !d.integer)?;
+    // The same events after the first segment was divided the way divide_segment does it (two new events at a rounded
+    // point of the segment, the old events re-linked): the orders must describe the segments as they are now, whatever
+    // was compared before. Float pairs only (the point is generally not exactly on the segment).
+    if !d.integer && evs.len() == 4 {
+        let (l, r) = if evs[0].is_left() { (evs[0].clone(), evs[1].clone()) } else { (evs[1].clone(), evs[0].clone()) };
+        let (pl, pr) = (l.point, r.point);
+        let t = [0.25, 0.5, 0.75][(pl.x.to_bits() % 3) as usize];
+        let m = pt(pl.x + t * (pr.x - pl.x), pl.y + t * (pr.y - pl.y));
+        let inside = if pl.x != pr.x { pl.x < m.x && m.x < pr.x } else { pl.y < m.y && m.y < pr.y };
+        let s2n = (evs[2].point, evs[3].point);
+        let overlap = d.subj.0 == d.subj.1 && (collinear_overlap((pl, m), s2n) || collinear_overlap((m, pr), s2n));
+        if inside && m.x.is_finite() && m.y.is_finite() && !overlap {
+            let nr = SweepEvent::new_rc(1, m, false, Rc::downgrade(&l), d.subj.0, true);
+            let nl = SweepEvent::new_rc(1, m, true, Rc::downgrade(&r), d.subj.0, true);
+            r.set_other_event(&nl);
+            l.set_other_event(&nr);
+            evs.push(nr);
+            evs.push(nl);
+            obs.class("events-after-a-division");
+            // event order only: next to a division point that is off the segment by rounding, compare_segments decides
+            // by computed intersection points (the inexact-and-degenerate region, DESIGN.md §2)
+            let nt = obs.nontrivial;
+            check_order_ex(&evs, "segment pair after dividing the first segment", obs, 1, true, false)?;
+            // the two new events always share a point: that alone does not make the case a non-trivial one
+            obs.nontrivial = nt;
+        }
+    }
+    Ok(())
 }
 
 /// the same for the f32 instantiation (coordinates must be f32 values)
